@@ -1,9 +1,12 @@
 (* C08  Every reported range is well-formed, UTF-16 correct and on target.
    The full statement is false of the composed model (text -> lexer -> parser -> producers), which
-   equals the implementation on every generated document; witnesses below, one per recorded
-   finding class that the model covers.  What the validator demands is made explicit. *)
+   equals the implementation on every generated document; a witness below for the recorded
+   finding class that the model covers (the other witnesses of the pinned tree -- rune columns,
+   overlapping folds -- were repaired in /repo and are positive samples now).  What the validator
+   demands is made explicit.  For EVERY byte string the positions of the token stream, which all
+   reported ranges are built from, are proved consistent (C08_token_positions_consistent). *)
 From HL Require Import Lib.Bytes Model.Lexer Model.Parser Model.References Model.Ranges Spec.RangeSpec Spec.FormatSpec Model.Formatter
-  Proofs.RangesProofs Proofs.LexerLines Proofs.ParserLines Proofs.ParserErrors.
+  Proofs.RangesProofs Proofs.LexerLines Proofs.LexerColumns Proofs.ParserLines Proofs.ParserErrors.
 Open Scope Z_scope.
 
 Theorem C08_validator_range : forall lines r, range_ok lines r = true ->
@@ -84,3 +87,28 @@ Theorem C08_syntax_error_lines_inside : forall input j errs, parse input = Some 
   forall l c, In (l, c) errs -> (1 <= l <= 1 + count10 input)%N.
 Proof. exact parse_error_lines_inside. Qed.
 Print Assumptions C08_syntax_error_lines_inside.
+
+(* For EVERY byte string: the start and the end of every token carry the line (counted by line
+   feeds, from 1), the column (UTF-16 code units since the last line feed, from 1) and the byte
+   offset of one and the same place of the text, that place is inside the text and on a rune
+   boundary of the reference walk -- so a column never points into a surrogate pair and never
+   past the end of its line.  `walk` is the reference: it consumes the text rune by rune. *)
+Theorem C08_token_positions_consistent : forall text toks, lex text = Some toks ->
+  Forall (fun t => tpos_ok text (tk_pos t) /\ tpos_ok text (tk_end t)) toks.
+Proof. exact lex_positions. Qed.
+Print Assumptions C08_token_positions_consistent.
+
+(* what the reference walk computes, unfolded once: nothing consumed is line 1, column 1; a line feed
+   starts the next line at column 1; any other rune adds its UTF-16 width (2 outside the BMP) *)
+Theorem C08_reference_walk_steps :
+  (forall l ln c, walk l 0 0 ln c = Some (ln, c)) /\
+  (forall r n ln c, walk (10%N :: r) (S n) 0 ln c = walk r n 0 (ln + 1)%N 1%N) /\
+  (forall c0 r ln c, c0 <> 10%N ->
+     walk (c0 :: r) (snd (Utf8.decode (c0 :: r))) 0 ln c = Some (ln, (c + Utf8.u16len (fst (Utf8.decode (c0 :: r))))%N)).
+Proof. split; [reflexivity|]. split; [reflexivity|]. exact walk_rune. Qed.
+Print Assumptions C08_reference_walk_steps.
+
+(* non-vacuity: the position after "a😀" (a non-BMP character) on the second line *)
+Theorem C08_sample_walk : walk (bs "x" ++ [10%N] ++ bs "a" ++ hx "f09f9880" ++ bs "b") 7 0 1 1 = Some (2%N, 4%N).
+Proof. vm_compute. reflexivity. Qed.
+Print Assumptions C08_sample_walk.
